@@ -82,6 +82,7 @@ type OpaqueV struct {
 	kind string
 	data interface{}
 	id   int
+	aux  Value
 }
 
 func (ex *Exec) newObj(v Value, typ types.Type) *Obj {
